@@ -33,7 +33,7 @@ var tagKeys = []string{"json", "protobuf", "valid", "alipay", "wechat", "gorm", 
 
 var plainVals = []string{"name,omitempty", "required", "required,to=1~3", "to=1~150", "bytes,1,opt,name=name,proto3", "varint,2,opt,name=age,proto3", "-", "id", "phone", "ge=0", "in=(1/2/3)", "either=1", "required|need it,le=3",
 	// white space inside a value is part of the value: two blanks, a tab, a no-break space, an ideographic space
-	"required|age  1 to 150", "required|a\tb", "required|no\u00a0break", "required|姓名\u3000必填", " lead", "trail "}
+	"required|age  1 to 150", "required|a\tb", "required|no\u00a0break", "required|姓名\u3000必填", " lead", "trail ", "required,email|like name@example.com", "root@localhost", "@"}
 var zhVals = []string{"required|姓名必填,to=1~3", "to=1~150|年龄1~150", "phone|'手机号码必填,同时正确'", "required|必填", "in=(男/女)|性别"}
 var dollarVals = []string{"re='^a$1b$$c'", "re='^[a-z]+$'", "re='^\\\\d{2}$'|two digits", "${x}", "$1", "a$$b", "$name", "100%", "rate in % of total", "%s and %d%%", "%v", "re='^(a|b)$0'", "c:\\\\dir", "a$b$c", "re='^\\\\w+$',required"}
 
